@@ -10,6 +10,9 @@ with tempfile.TemporaryDirectory() as d:
     for tc in ET.parse(x).getroot().iter("testcase"):
         if not any(c.tag in ("failure", "error", "skipped") for c in tc):
             passed.add(f"{tc.get('classname')}::{tc.get('name')}")
+if os.path.isdir(os.path.join(repo, ".git")) or os.path.isfile(os.path.join(repo, ".git")):
+    # the suite rewrites a few tracked output files under test_autoarray/ - never let them leak into a commit
+    subprocess.run(["git", "-C", repo, "checkout", "--", "test_autoarray"], capture_output=True)
 want = set(base["stable_pass"])
 missing = sorted(want - passed)
 print(f"stable_pass expected={len(want)} passing_now={len(want & passed)} missing={len(missing)} extra_passing={len(passed - want)}")
